@@ -225,4 +225,107 @@ theorem pathSum_le_length (f : V → V → Nat) (h : ∀ u v, f u v ≤ 1) : ∀
     have := h u v
     simp only [pathSum, List.length_cons] at ih ⊢; omega
 
+/-! ### forced hops: uniqueness of a route along line elements -/
+
+/-- every hop `a → b` of the list is forced: `b` is the only successor of `a`, or `a` is the only predecessor of `b`
+and `b` is known to be visited (`mem b`) -/
+def ForcedChain (g : Graph) (mem : V → Prop) : List V → Prop
+  | a :: b :: rest => (g.succ a = [b] ∨ ((∀ w, b ∈ g.succ w → w = a) ∧ mem b)) ∧ ForcedChain g mem (b :: rest)
+  | _ => True
+
+theorem ForcedChain.mono (g : Graph) (mem mem' : V → Prop) : ∀ l : List V,
+    (∀ b ∈ l.tail, mem b → mem' b) → ForcedChain g mem l → ForcedChain g mem' l
+  | [], _, _ => trivial
+  | [_], _, _ => trivial
+  | a :: b :: rest, h, hf => by
+    refine ⟨?_, ForcedChain.mono g mem mem' (b :: rest)
+      (fun x hx => h x (by simp only [List.tail_cons] at hx ⊢; exact List.mem_cons_of_mem _ hx)) hf.2⟩
+    rcases hf.1 with h1 | ⟨h1, h2⟩
+    · exact Or.inl h1
+    · exact Or.inr ⟨h1, h b (by simp) h2⟩
+
+/-- in a walk every element but the first has a predecessor on the walk -/
+theorem walk_has_pred (g : Graph) : ∀ (y : V) (l : List V) (x : V), IsWalk g (y :: l) → x ∈ l →
+    ∃ w ∈ y :: l, x ∈ g.succ w
+  | _, [], x, _, hx => by simp at hx
+  | y, z :: l, x, hw, hx => by
+    rcases List.mem_cons.1 hx with rfl | hx
+    · exact ⟨y, by simp, hw.1⟩
+    · obtain ⟨w, hwm, hws⟩ := walk_has_pred g z l x hw.2 hx
+      exact ⟨w, List.mem_cons_of_mem _ hwm, hws⟩
+
+/-- an element whose only predecessor is the head of a loop-free walk sits right behind the head -/
+theorem second_of_unique_pred (g : Graph) (a y : V) (l : List V) (x : V) (hw : IsWalk g (a :: y :: l))
+    (hnd : (a :: y :: l).Nodup) (hx : x ∈ y :: l) (hpred : ∀ w, x ∈ g.succ w → w = a) : x = y := by
+  rcases List.mem_cons.1 hx with h | h
+  · exact h
+  · obtain ⟨w, hwm, hws⟩ := walk_has_pred g y l x hw.2 h
+    have := hpred w hws
+    subst this
+    exact absurd hwm (List.nodup_cons.1 hnd).1
+
+/-- the predecessor of a visited element is visited (when it is the only one) -/
+theorem pred_on_walk (g : Graph) (q : List V) (s x u : V) (hw : IsWalk g q) (hs : q.head? = some s) (hx : x ∈ q)
+    (hne : x ≠ s) (hpred : ∀ w, x ∈ g.succ w → w = u) : u ∈ q := by
+  cases q with
+  | nil => simp at hx
+  | cons a l =>
+    simp at hs; subst hs
+    rcases List.mem_cons.1 hx with h | h
+    · exact absurd h hne
+    · obtain ⟨w, hwm, hws⟩ := walk_has_pred g a l x hw h
+      rw [← hpred w hws]; exact hwm
+
+theorem forced_path_unique (g : Graph) (t : V) : ∀ (p q : List V), IsWalk g q → q.Nodup → p.Nodup →
+    p.head? = q.head? → p ≠ [] → p.getLast? = some t → q.getLast? = some t →
+    ForcedChain g (fun b => b ∈ q) p → q = p
+  | [], _, _, _, _, _, hne, _, _, _ => absurd rfl hne
+  | [x0], q, _, hqnd, _, hhead, _, hpl, hql, _ => by
+    simp at hpl; subst hpl
+    cases q with
+    | nil => simp at hhead
+    | cons a l =>
+      simp at hhead; subst hhead
+      cases l with
+      | nil => rfl
+      | cons y r =>
+        have : (x0 :: y :: r).getLast? = some x0 := hql
+        rw [List.getLast?_cons_cons] at this
+        have hm : x0 ∈ y :: r := List.mem_of_getLast? this
+        exact absurd hm (List.nodup_cons.1 hqnd).1
+  | x0 :: x1 :: rest, q, hqw, hqnd, hpnd, hhead, _, hpl, hql, hf => by
+    cases q with
+    | nil => simp at hhead
+    | cons a l =>
+      simp at hhead; subst hhead
+      have hpnd' := List.nodup_cons.1 hpnd
+      have hx01 : x1 ≠ x0 := fun e => hpnd'.1 (e ▸ (by simp))
+      -- q has a second element
+      cases l with
+      | nil =>
+        -- then x0 = t, but t is also the last element of p, later than x0
+        simp at hql; subst hql
+        rw [List.getLast?_cons_cons] at hpl
+        exact absurd (List.mem_of_getLast? hpl) hpnd'.1
+      | cons y r =>
+        have hy : y = x1 := by
+          rcases hf.1 with h1 | ⟨h1, h2⟩
+          · have := hqw.1; rw [h1] at this; simpa using this
+          · have hx1 : x1 ∈ y :: r := by
+              rcases List.mem_cons.1 h2 with h | h
+              · exact absurd h hx01
+              · exact h
+            exact (second_of_unique_pred g x0 y r x1 hqw hqnd hx1 h1).symm
+        subst hy
+        have hq1nd := (List.nodup_cons.1 hqnd).2
+        have ih := forced_path_unique g t (y :: rest) (y :: r) hqw.2 hq1nd hpnd'.2 rfl (by simp)
+          (by rw [List.getLast?_cons_cons] at hpl; exact hpl)
+          (by rw [List.getLast?_cons_cons] at hql; exact hql)
+          (ForcedChain.mono g _ _ (y :: rest) (fun b hb hbq => by
+              simp only [List.tail_cons] at hb
+              rcases List.mem_cons.1 hbq with h | h
+              · exact absurd (h ▸ List.mem_cons_of_mem _ hb) hpnd'.1
+              · exact h) hf.2)
+        rw [ih]
+
 end Gnpy.Route
